@@ -84,6 +84,17 @@ func Matrix(r *fw.Rand) string {
 func Ladder(r *fw.Rand) string {
 	depths := []int{1, 2, 5, 18, 19, 20, 21, 22, 25, 40, 64}
 	n := fw.PickT(r, depths)
+	if r.P(1, 12) {
+		// nesting far beyond anything sensible (inputs of 10–100 KB): the recursive-descent parser
+		// must refuse, not exhaust the goroutine stack
+		deep := fw.PickT(r, []int{1100, 5000, 30000})
+		open := r.Pick([]string{"(1+", "(", "[", "[1,", "{'k':", "`{", "1d(", "x[", "-(", "toStr(", "(x ? ", "1 ? (", "[[", "((1)+("})
+		src := strings.Repeat(open, deep) + "1"
+		if r.P(1, 3) && deep <= 5000 {
+			src += strings.Repeat(map[string]string{"(1+": ")", "(": ")", "[": "]", "[1,": "]", "{'k':": "}", "`{": "}`", "1d(": ")", "x[": "]", "-(": ")", "toStr(": ")", "(x ? ": " : 2)", "1 ? (": ") : 2", "[[": "]]", "((1)+(": "))"}[open], deep)
+		}
+		return src
+	}
 	if r.P(1, 4) {
 		// an operator nested in its own operand positions (every operator that keeps per-term state),
 		// and per-term state abandoned by leaving a loop iteration from inside an operand
